@@ -403,13 +403,17 @@ def run_check(prop: str, tier: str, seed: int, runs: int | None = None, workers:
     try:
         # ---- 1. known / fixed replay files ----
         known_lines = []
-        for e in known:
+        known_futs = []
+        for j, e in enumerate(known):
             rp = os.path.join(ROOT, e["replay"])
             with open(rp) as f:
                 rf = json.load(f)
-            fut = pools.submit(0, job_replay, prop, rf["cls"], rf["cfg"], rf["scen"], rf["sched"], False, rf.get("scenario_full"))
+            # pin by class like the exploration runs, so that JIT work is shared with them
+            shard = classes.index(rf["cls"]) if rf["cls"] in classes else j
+            known_futs.append((e, rf, pools.submit(shard, job_replay, prop, rf["cls"], rf["cfg"], rf["scen"], rf["sched"], False, rf.get("scenario_full"))))
+        for e, rf, fut in known_futs:
             try:
-                out = fut.result(timeout=600)
+                out = fut.result(timeout=900)
             except (BrokenProcessPool, FutTimeout) as ex:
                 raise HarnessError(f"replay of {e['id']} failed: {ex!r}")
             hit = [v for v in out["violations"] if match_known(v, [dict(e, status="known")]) is not None]
